@@ -347,13 +347,16 @@ class Session:
 
     def bad_item(self, kind):
         t = self.cfg.tail
+        # incompatible chunks also come WITHOUT rows (NumPy's concatenate refuses (0, 3) onto (n, 2) as well)
+        self.nbadrows = getattr(self, 'nbadrows', self.cfg.rowbytes) + 1
+        r = [1, 2, 0][self.nbadrows % 3]
         if kind == 'shape':
             if t == ():
-                return np.ones((1, 2), dtype=self.cfg.numtype)
-            return np.ones((1,) + t[:-1] + (t[-1] + 1,), dtype=self.cfg.numtype)
+                return np.ones((r, 2), dtype=self.cfg.numtype)
+            return np.ones((r,) + t[:-1] + (t[-1] + 1,), dtype=self.cfg.numtype)
         if kind == 'rank':
             if t == ():
-                return np.ones((1, 1, 1), dtype=self.cfg.numtype)
+                return np.ones((r, 1, 1), dtype=self.cfg.numtype)
             # for an N-D array a bare number (no __len__) or a 0-d array has the wrong rank, too
             self.n += 1
             return [np.ones((2,) + t + (1,), dtype=self.cfg.numtype), 7, np.float64(7), np.array(7),
